@@ -2,10 +2,12 @@
 //! mini-mcmc implementation in /repo's working tree (hooks on), prints one JSON result per line.
 mod c01;
 mod c05;
+mod c07;
 mod c09;
 mod c16;
 mod stats;
 mod util;
+mod zoo;
 use std::io::{BufRead, Write};
 
 fn main() {
@@ -22,6 +24,8 @@ fn main() {
         let res = util::guarded(|| match pid.as_str() {
             "C01" => c01::run(&case),
             "C05" => c05::run(&case),
+            "C07" => c07::run(&case),
+            "C08" => c07::run08(&case),
             "C09" => c09::run(&case),
             "C16" => c16::run(&case),
             "C11" | "C12" | "C13" => stats::run(&case),
